@@ -168,17 +168,22 @@ def gen_sessions(ctx, salt, nsess, boards_choices, strategies_per, arrivals_fn=N
     out = []
     for i in range(nsess):
         nb = r.choice(boards_choices)
-        if i % 2 == 0 and max(boards_choices) >= 2:
+        if i % 4 in (0, 1, 2) and max(boards_choices) >= 2:
             nb = max(nb, 2)        # these sessions mix a passed-out board with played ones, in both orders
         arr = arrivals_fn(r) if arrivals_fn else four_arrivals(r, style=styles[i % len(styles)])
         # some boards of a multi-board session are passed out by the whole table (played and passed-out boards in either order)
         po = [b for b in range(1, nb + 1) if r.random() < 0.35] if nb > 1 else []
-        if nb > 1 and i % 2 == 0:
-            po = sorted(set(po) | {r.randint(2, nb)}) if i % 4 == 0 else [1]   # a passed-out board after a played one / before one
+        if nb > 1 and i % 4 in (0, 1, 2):
             for a in arr:
                 if a.get('style') == 'pass':
                     a['style'] = 'competitive'
-            po = [b for b in po if b != 1] if i % 4 == 0 else po
+            if i % 4 == 0:        # a passed-out board after a played one
+                k = r.randint(2, nb)
+                po = [b for b in po if b != 1 and b != k] + [k]
+            elif i % 4 == 2:      # a passed-out board before a played one
+                po = [1]
+            else:                 # every board played (two or more played boards in one session)
+                po = []
         for a in arr:
             a['passout_boards'] = po
         base = dict(boards=gen_boards(r, nb), arrivals=arr)
